@@ -18,7 +18,7 @@ LEVEL_TEXT = ("Runtime monitoring of the real save / load / save_image / load_im
 LEVEL_NOTE = "Trusted: h5py/h5netcdf/Pillow as file codecs, numpy. Temporary files live in a per-case scratch directory removed after the case."
 TECHNIQUE = "runtime monitoring: generated images through the real I/O functions, round-trip/decoded-file oracle + argument-purity monitor"
 RULE = ("h5: random images x dtype {f8,f4,i8,i4,u2,c16} x layout {grey, 2ch, 3ch} x metadata form {scalar, dict, DataArray "
-        "in permuted label order} x cycles 1..3; tiff: depth 8/16/float, scaling auto/None, via hp.save and save_image; "
+        "in permuted label order} x cycles 1..3 + a load-process-save cycle; image names incl. non-ASCII and yaml-hostile texts; tiff: depth 8/16/float, scaling auto/None, via hp.save and save_image; "
         "raster: PIL-written grey/RGB files read with load_image over channel selections; avg: 2-5 files, all orders "
         "(<=4) or 12 sampled; meta: all 16 subsets of the four fields. non-trivial = image not constant; distinct by rounded case JSON")
 ASSUMPTIONS = ["TIFF round trips are claimed for scaling='auto' (integer depths) and for float files; scaling=None with an integer depth writes display units by request and is not a round trip",
